@@ -314,15 +314,18 @@ func (dsc *Discipline[Type]) waitZeroActual() {
 	}
 }
 
-func (dsc *Discipline[Type]) getOneFeedback() {
+// Returns false if waiting was interrupted by stopping the discipline.
+func (dsc *Discipline[Type]) getOneFeedback() bool {
 	select {
 	case <-dsc.breaker.IsBreaked():
-		return
+		return false
 	case <-dsc.opts.Ctx.Done():
-		return
+		return false
 	case priority := <-dsc.opts.Feedback:
 		dsc.decreaseActual(priority)
 	}
+
+	return true
 }
 
 func (dsc *Discipline[Type]) getLimitedFeedback() {
@@ -407,7 +410,13 @@ func (dsc *Discipline[Type]) waitCalcTactic() error {
 			return nil
 		}
 
-		dsc.getOneFeedback()
+		if !dsc.getOneFeedback() {
+			// The discipline is being stopped, there is nothing to distribute and
+			// nothing to wait for, main loop will notice the stop
+			dsc.resetTactic()
+
+			return nil
+		}
 	}
 }
 
